@@ -29,6 +29,7 @@ type lat struct {
 	LateKey  bool // keyring configured empty at creation; the key is installed afterwards
 	Frag     int  `json:",omitempty"` // > 0: every stream read returns at most this many bytes
 	Plain    bool `json:",omitempty"` // the application's transport implements only memberlist.Transport (not node-aware): the library's shim and the label wrapper's plain entry points carry the traffic
+	ReqNames bool `json:",omitempty"` // RequireNodeNames: every send must name its recipient
 	Rollout  bool `json:",omitempty"` // roll-out stage: the receiver already has a key (verification of incoming and outgoing traffic off), the sender has none yet
 }
 
@@ -47,6 +48,9 @@ func (l lat) String() string {
 	if l.Plain {
 		fr += " plain-transport"
 	}
+	if l.ReqNames {
+		fr += " require-node-names"
+	}
 	return fmt.Sprintf("enc=%s/%d comp=%v label=%s pmax=%d newtime=%v ipnames=%v verout=%v verin=%v buf=%d latekey=%v%s", l.Enc, l.KeyLen, l.Comp, lb, l.PeerPMax, l.NewTime, l.IPNames, !l.NoVerOut, !l.NoVerIn, l.UDPBuf, l.LateKey, fr)
 }
 
@@ -56,6 +60,7 @@ func (l lat) apply(c *ml.Config) {
 	c.EnableCompression = l.Comp
 	c.Label = l.Label
 	c.MsgpackUseNewTimeFormat = l.NewTime
+	c.RequireNodeNames = l.ReqNames
 	if l.Enc != "off" {
 		kr, err := ml.NewKeyring(nil, latKey(l.KeyLen))
 		if l.LateKey {
